@@ -352,6 +352,26 @@ func scenC03(c *ctx) {
 			c.rec.Emit(doValidateHOTP(fmt.Sprintf("C03/sibnil/%d/%d", i, k), b32(key), refHOTP(key, ctr+uint64(k), 6, 0), ctr, P{Nil: k%2 == 0, Digits: 6, Skew: 0}))
 		}
 	}
+	// parameter grid back to back: the same secret and counter under four parameter sets (two hashes x two code
+	// lengths); every in-window code is submitted under its own set (accepted) and under each other set (refused),
+	// so a result remembered from the previous call under a key that omits a parameter shows
+	for i := 0; i < c.n(12, 200); i++ {
+		key := c.someKey()
+		ctr := c.someCounter()>>2 + 30
+		a0 := uint8(c.rng.Intn(3))
+		a1 := (a0 + 1 + uint8(c.rng.Intn(2))) % 3
+		d0 := okDigits[c.rng.Intn(len(okDigits))]
+		d1 := okDigits[c.rng.Intn(len(okDigits))]
+		sets := []P{{Digits: d0, Alg: a0, Skew: 1}, {Digits: d0, Alg: a1, Skew: 1}, {Digits: d1, Alg: a0, Skew: 1}, {Digits: d1, Alg: a1, Skew: 1}}
+		for x, p := range sets {
+			for y, q := range sets {
+				dist := (x + y) % 2
+				code := refHOTP(key, ctr+uint64(dist), int(p.Digits), int(p.Alg))
+				c.rec.Emit(doValidateHOTP(fmt.Sprintf("C03/sibgrid/%d/%d%d/own", i, x, y), b32(key), code, ctr, p))
+				c.rec.Emit(doValidateHOTP(fmt.Sprintf("C03/sibgrid/%d/%d%d/other", i, x, y), b32(key), code, ctr, q))
+			}
+		}
+	}
 	// refused windows: even the exact code of the counter itself
 	for _, s := range skewsRefused {
 		for i := 0; i < 3; i++ {
@@ -534,6 +554,25 @@ func scenC04(c *ctx) {
 		}
 		for k := 0; k < 4; k++ {
 			c.rec.Emit(doValidateTOTP(fmt.Sprintf("C04/sibnil/%d/%d", i, k), b32(key), refHOTP(key, step+uint64(k), 6, 0), t, P{Nil: k%2 == 0, Digits: 6, Skew: 0, Period: 30}))
+		}
+	}
+	// parameter grid back to back (as in C03): two hashes x two code lengths on the same secret and instant
+	for i := 0; i < c.n(12, 200); i++ {
+		key := c.someKey()
+		step := uint64(c.rng.Int63n(1<<30)) + 50
+		t := time.Unix(int64(step*30)+int64(c.rng.Intn(30)), 0)
+		a0 := uint8(c.rng.Intn(3))
+		a1 := (a0 + 1 + uint8(c.rng.Intn(2))) % 3
+		d0 := okDigits[c.rng.Intn(len(okDigits))]
+		d1 := okDigits[c.rng.Intn(len(okDigits))]
+		sets := []P{{Digits: d0, Alg: a0, Skew: 1, Period: 30}, {Digits: d0, Alg: a1, Skew: 1, Period: 30}, {Digits: d1, Alg: a0, Skew: 1, Period: 30}, {Digits: d1, Alg: a1, Skew: 1, Period: 30}}
+		for x, p := range sets {
+			for y, q := range sets {
+				dist := (x + y) % 2
+				code := refHOTP(key, step+uint64(dist), int(p.Digits), int(p.Alg))
+				c.rec.Emit(doValidateTOTP(fmt.Sprintf("C04/sibgrid/%d/%d%d/own", i, x, y), b32(key), code, t, p))
+				c.rec.Emit(doValidateTOTP(fmt.Sprintf("C04/sibgrid/%d/%d%d/other", i, x, y), b32(key), code, t, q))
+			}
 		}
 	}
 	// refused skews: every submitted string, including the current step's own code, is refused
